@@ -68,4 +68,32 @@ theorem framesOf_cons (o : Opts) (mid : U64) (k : Byte) (d : Bytes) :
 def UnknownKind (k : Byte) : Prop :=
   k ≠ kindInvoke ∧ k ≠ kindMessage ∧ k ≠ kindError ∧ k ≠ kindCancel ∧ k ≠ kindClose ∧ k ≠ kindCloseSend
 
+/-! ### a step of thread `t` never touches another thread's program counter -/
+
+theorem upd_pc_other (s : St) (t u : Tid) (sh : Sh) (p : PC) (h : u ≠ t) : (s.upd t sh p).pc u = s.pc u := by
+  simp [St.upd, St.setPc, St.setSh, h]
+
+set_option maxHeartbeats 1000000 in
+theorem step_pc_other {s s' : St} {t u : Tid} (hne : u ≠ t) (h : step s t = some s') : s'.pc u = s.pc u := by
+  unfold step at h
+  cases hp : s.pc t <;> rw [hp] at h <;> simp only [stepPC] at h
+  all_goals (repeat' split at h)
+  all_goals (first
+    | (cases h; done)
+    | (injection h with h; subst h; simp [upd_pc_other _ _ _ _ _ hne]))
+
+theorem runSolo_pc_other (n : Nat) (s : St) (t u : Tid) (hne : u ≠ t) : (runSolo n s t).pc u = s.pc u := by
+  induction n generalizing s with
+  | zero => rfl
+  | succ n ih =>
+    rw [runSolo_succ]
+    cases h : step s t with
+    | none => rfl
+    | some s' => simp only; rw [ih, step_pc_other hne h]
+
+theorem call_pc_other (s : St) (t u : Tid) (c : Call) (hne : u ≠ t) : (call s t c).pc u = s.pc u := by
+  unfold call
+  rw [runSolo_pc_other _ _ _ _ hne]
+  simp [upd_pc_other _ _ _ _ _ hne]
+
 end Drpc.Stream
